@@ -734,39 +734,29 @@ func (t *taintEngine) comparisonBlocks(fn *ssa.Function, g map[ssa.Value]bool, k
 		if !ok {
 			continue
 		}
-		cond := ifi.Cond
-		for {
-			if u, ok := cond.(*ssa.UnOp); ok && u.Op == token.NOT {
-				cond = u.X
-				continue
-			}
-			break
-		}
-		bo, ok := cond.(*ssa.BinOp)
-		if !ok {
-			continue
-		}
-		switch bo.Op {
-		case token.LSS, token.LEQ, token.GTR, token.GEQ:
-			if kind == "alloc" {
-				// "fits in 32 bits" is no bound on an allocation
-				if k, isK := constInt(bo.Y); isK && k >= 1<<30 {
+		for _, bo := range condCompares(ifi.Cond) {
+			switch bo.Op {
+			case token.LSS, token.LEQ, token.GTR, token.GEQ:
+				if kind == "alloc" {
+					// "fits in 32 bits" is no bound on an allocation
+					if k, isK := constInt(bo.Y); isK && k >= 1<<30 {
+						continue
+					}
+					if k, isK := constInt(bo.X); isK && k >= 1<<30 {
+						continue
+					}
+				}
+				if inGroup(bo.X) || inGroup(bo.Y) {
+					out[b.Index] = true
+				}
+			case token.EQL, token.NEQ:
+				// for a size, (in)equality with the constant 0 bounds nothing; for a divisor it is the check
+				if (kind == "alloc" || kind == "narrow") && (isIntConst(bo.X, 0) || isIntConst(bo.Y, 0)) {
 					continue
 				}
-				if k, isK := constInt(bo.X); isK && k >= 1<<30 {
-					continue
+				if inGroup(bo.X) || inGroup(bo.Y) {
+					out[b.Index] = true
 				}
-			}
-			if inGroup(bo.X) || inGroup(bo.Y) {
-				out[b.Index] = true
-			}
-		case token.EQL, token.NEQ:
-			// for a size, (in)equality with the constant 0 bounds nothing; for a divisor it is the check
-			if (kind == "alloc" || kind == "narrow") && (isIntConst(bo.X, 0) || isIntConst(bo.Y, 0)) {
-				continue
-			}
-			if inGroup(bo.X) || inGroup(bo.Y) {
-				out[b.Index] = true
 			}
 		}
 	}
@@ -875,6 +865,13 @@ func (t *taintEngine) scan() []taintFinding {
 		}
 		if isSrc {
 			unc, path := t.uncheckedKind(fn, in, v, kind)
+			if kind == "alloc" && !unc {
+				// bounded from above; a signed size also has to be kept from being negative
+				if neg, npath := t.signedSizeUnchecked(fn, in, v); neg {
+					out = append(out, taintFinding{Fn: fn, Instr: in, Kind: kind, What: what, Origin: origin + " (a signed value that is compared with an upper limit only: a negative size panics in make)", Path: npath, OK: false})
+					return
+				}
+			}
 			f := taintFinding{Fn: fn, Instr: in, Kind: kind, What: what, Origin: origin, Path: path, OK: !unc}
 			out = append(out, f)
 		} else {
@@ -1050,6 +1047,31 @@ func (t *taintEngine) inGroupFn(g map[ssa.Value]bool, keys map[string]bool) func
 				if tn, f, _ := t.p.fieldLoad(x); tn != "" && keys["f:"+tn+"."+f] {
 					hit = true
 				}
+			case *ssa.Call:
+				// a helper of the module that computes a number from the record it is handed: its result
+				// stands for the fields it reads
+				sc := x.Common().StaticCallee()
+				if sc == nil || len(sc.Blocks) == 0 || !t.p.InModule(pkgOf(sc)) || intWidth(x.Type()) == 0 {
+					return
+				}
+				for _, a := range x.Common().Args {
+					walk(a, d+1)
+				}
+				if hit {
+					return
+				}
+				for _, b := range sc.Blocks {
+					for _, in := range b.Instrs {
+						val, ok := in.(ssa.Value)
+						if !ok {
+							continue
+						}
+						if tn, f, _ := t.p.fieldLoad(val); tn != "" && keys["f:"+strings.TrimPrefix(tn, "*")+"."+f] {
+							hit = true
+							return
+						}
+					}
+				}
 			}
 		}
 		walk(v, 0)
@@ -1087,30 +1109,20 @@ func (t *taintEngine) indexGuards(fn *ssa.Function, g map[ssa.Value]bool, keys m
 		for _, in := range b.Instrs {
 			switch x := in.(type) {
 			case *ssa.If:
-				cond := x.Cond
-				for {
-					if u, ok := cond.(*ssa.UnOp); ok && u.Op == token.NOT {
-						cond = u.X
-						continue
-					}
-					break
-				}
-				bo, ok := cond.(*ssa.BinOp)
-				if !ok {
-					continue
-				}
-				switch bo.Op {
-				case token.LSS, token.LEQ, token.GTR, token.GEQ:
-					gx, gy := inGroup(bo.X), inGroup(bo.Y)
-					if gx == gy {
-						continue
-					}
-					other := bo.Y
-					if gy {
-						other = bo.X
-					}
-					if t.upperBoundBy(other, o) {
-						out[b.Index] = true
+				for _, bo := range condCompares(x.Cond) {
+					switch bo.Op {
+					case token.LSS, token.LEQ, token.GTR, token.GEQ:
+						gx, gy := inGroup(bo.X), inGroup(bo.Y)
+						if gx == gy {
+							continue
+						}
+						other := bo.Y
+						if gy {
+							other = bo.X
+						}
+						if t.upperBoundBy(other, o) {
+							out[b.Index] = true
+						}
 					}
 				}
 			case *ssa.Call:
@@ -1224,6 +1236,128 @@ func dropNonBounding(fn *ssa.Function, cb map[int]bool, sink ssa.Instruction, v 
 			delete(cb, bi)
 		}
 	}
+}
+
+// signedSizeUnchecked: the allocation size v is (arithmetic on) a signed integer field decoded from the
+// input, and some path reaches the allocation without a comparison that keeps it from being negative
+// (an ordered comparison of it with a constant that is not positive, one side of which does not go on
+// to the allocation).
+func (t *taintEngine) signedSizeUnchecked(fn *ssa.Function, sink ssa.Instruction, v ssa.Value) (bool, []string) {
+	signed := func(ty types.Type) bool {
+		b, ok := ty.Underlying().(*types.Basic)
+		return ok && b.Info()&types.IsInteger != 0 && b.Info()&types.IsUnsigned == 0
+	}
+	var src ssa.Value
+	cur := v
+	for i := 0; i < 8 && cur != nil && src == nil; i++ {
+		if _, _, isW := t.isWireField(cur); isW && signed(cur.Type()) {
+			src = cur
+			break
+		}
+		switch x := cur.(type) {
+		case *ssa.Convert:
+			if !signed(x.X.Type()) {
+				return false, nil // came from an unsigned value: not negative
+			}
+			cur = x.X
+		case *ssa.ChangeType:
+			cur = x.X
+		case *ssa.BinOp:
+			if _, isK := x.Y.(*ssa.Const); isK && (x.Op == token.ADD || x.Op == token.MUL) {
+				cur = x.X
+			} else {
+				return false, nil
+			}
+		default:
+			return false, nil
+		}
+	}
+	if src == nil {
+		return false, nil
+	}
+	g, keys := t.derivGroup(src)
+	g[src] = true
+	inGroup := t.inGroupFn(g, keys)
+	cb := map[int]bool{}
+	for _, b := range fn.Blocks {
+		ifi, ok := b.Instrs[len(b.Instrs)-1].(*ssa.If)
+		if !ok || b == sink.Block() {
+			continue
+		}
+		for _, bo := range condCompares(ifi.Cond) {
+			switch bo.Op {
+			case token.LSS, token.LEQ, token.GTR, token.GEQ:
+			case token.EQL, token.NEQ:
+				// equality with a value that does not come from the input (the size of the digest, say) fixes it
+				for _, pair := range [][2]ssa.Value{{bo.X, bo.Y}, {bo.Y, bo.X}} {
+					if inGroup(pair[0]) && !inGroup(pair[1]) {
+						if _, isSrc := t.taint(pair[1]).anySrc(); !isSrc {
+							if k, isK := constInt(pair[1]); !isK || k > 0 {
+								cb[b.Index] = true
+							}
+						}
+					}
+				}
+				continue
+			default:
+				continue
+			}
+			if k, isK := constInt(bo.Y); isK && k <= 0 && inGroup(bo.X) {
+				cb[b.Index] = true
+			}
+			if k, isK := constInt(bo.X); isK && k <= 0 && inGroup(bo.Y) {
+				cb[b.Index] = true
+			}
+		}
+	}
+	dropNonBounding(fn, cb, sink, v)
+	del := map[edge]bool{}
+	for bi := range cb {
+		for si := range fn.Blocks[bi].Succs {
+			del[edge{bi, si}] = true
+		}
+	}
+	pred := map[int]int{}
+	if reach(fn, []*ssa.BasicBlock{fn.Blocks[0]}, del, pred)[sink.Block().Index] {
+		return true, t.p.witness(fn, pred, sink.Block().Index)
+	}
+	return false, nil
+}
+
+// condCompares: the comparisons a branch condition stands for: the condition itself, or - for a
+// named boolean (`ok := a && b <= n; if ok`, a phi of constants and tests) - the comparisons merged into it.
+func condCompares(cond ssa.Value) []*ssa.BinOp {
+	for {
+		if u, ok := cond.(*ssa.UnOp); ok && u.Op == token.NOT {
+			cond = u.X
+			continue
+		}
+		break
+	}
+	if bo, ok := cond.(*ssa.BinOp); ok {
+		return []*ssa.BinOp{bo}
+	}
+	var out []*ssa.BinOp
+	if _, ok := cond.(*ssa.Phi); ok {
+		seen := map[*ssa.BinOp]bool{}
+		for _, truth := range []bool{true, false} {
+			for _, f := range factsOf(cond, truth) {
+				v := f.V
+				for {
+					if u, ok := v.(*ssa.UnOp); ok && u.Op == token.NOT {
+						v = u.X
+						continue
+					}
+					break
+				}
+				if bo, ok := v.(*ssa.BinOp); ok && !seen[bo] {
+					seen[bo] = true
+					out = append(out, bo)
+				}
+			}
+		}
+	}
+	return out
 }
 
 // arithDependsOn: like dependsOn, but only through arithmetic (conversions, binary and unary
@@ -1704,24 +1838,22 @@ func (t *taintEngine) negativeUnchecked(fn *ssa.Function, sink ssa.Instruction, 
 		if !ok || b == sink.Block() {
 			continue
 		}
-		bo, ok := ifi.Cond.(*ssa.BinOp)
-		if !ok {
-			continue
-		}
-		switch bo.Op {
-		case token.LSS, token.LEQ, token.GTR, token.GEQ:
-		default:
-			continue
-		}
 		guard := false
-		if k, isK := constInt(bo.Y); isK && k <= 0 && inGroup(bo.X) {
-			guard = true
-		}
-		if k, isK := constInt(bo.X); isK && k <= 0 && inGroup(bo.Y) {
-			guard = true
-		}
-		if (inX(bo.X) && inY(bo.Y)) || (inY(bo.X) && inX(bo.Y)) {
-			guard = true
+		for _, bo := range condCompares(ifi.Cond) {
+			switch bo.Op {
+			case token.LSS, token.LEQ, token.GTR, token.GEQ:
+			default:
+				continue
+			}
+			if k, isK := constInt(bo.Y); isK && k <= 0 && inGroup(bo.X) {
+				guard = true
+			}
+			if k, isK := constInt(bo.X); isK && k <= 0 && inGroup(bo.Y) {
+				guard = true
+			}
+			if (inX(bo.X) && inY(bo.Y)) || (inY(bo.X) && inX(bo.Y)) {
+				guard = true
+			}
 		}
 		if guard {
 			for si := range b.Succs {
